@@ -664,6 +664,10 @@ def build_program(rng: random.Random, nested_import_p: float = 0.07) -> Prog:
             feats.add("xfile-nested")
     feats.add(f"depth{max(max_depth(s) for s in order)}")
     files = main.all_files()
+    if r.random() < 0.5:
+        # comment blocks become doc comments / docstrings in the generated code: quotes, backslashes, comment closers
+        G.sprinkle_comments(main, r, 0.35)
+        feats.add("comments")
     texts = G.program_files(main, r)
     filt: Optional[List[str]] = None
     configs = ["c", "py", "go"]
